@@ -13,7 +13,7 @@
 From Coq Require Import List.
 Import ListNotations.
 Require Import ZV.Model.GenShape ZV.Proofs.GenShapeProofs ZV.Model.Lexer.
-Require ZV.Model.Reader ZV.Properties.C13 ZV.Proofs.ReaderFuel.
+Require ZV.Model.Reader ZV.Properties.C13 ZV.Proofs.ReaderFuel ZV.Proofs.LexerCount.
 Require Import ZV.Model.CallCheck ZV.Proofs.CallCheckProofs.
 Require Import ZV.Model.Destructure ZV.Proofs.DestructureProofs.
 Require ZV.Model.PrattTypes ZV.Model.Pratt ZV.Model.PrattShape ZV.Proofs.PrattShapeProofs ZV.Proofs.PrattFuelProofs ZV.Generated.InfixTable.
@@ -78,6 +78,34 @@ Print Assumptions reader_never_out_of_fuel.
 Theorem read_fuel_linear : forall p text, (RF.read_fuel p text <= 6 * length (RF.read_tokens p text) + 2)%nat.
 Proof. exact RF.read_fuel_le. Qed.
 Print Assumptions read_fuel_linear.
+
+(* the same with a bound in the length of the TEXT (Proofs/LexerCount.v): LexNextRune queues at most four
+   tokens per rune in every lexer state, so the queue of a text of n runes (+ the final newline of WholeText)
+   has at most 4n+4 tokens and fuel 24n+26 is always enough: no proviso that mentions the model's lexer *)
+Module LC := ZV.Proofs.LexerCount.
+
+Theorem lexer_tokens_per_rune : forall s r,
+  (length (l_tokens (lres_state (lex_rune s r))) <= length (l_tokens s) + 4)%nat.
+Proof. exact LC.lex_rune_b. Qed.
+Print Assumptions lexer_tokens_per_rune.
+
+Theorem read_tokens_linear : forall p text, (length (RF.read_tokens p text) <= 4 * length text + 4)%nat.
+Proof. exact LC.read_tokens_le. Qed.
+Print Assumptions read_tokens_linear.
+
+Theorem read_returns_text : forall strict cfix fuel p text, (24 * length text + 26 <= fuel)%nat ->
+  fst (RD.observe (RD.parse_after strict cfix fuel p text)) = RD.StDone \/
+  fst (RD.observe (RD.parse_after strict cfix fuel p text)) = RD.StMore \/
+  fst (RD.observe (RD.parse_after strict cfix fuel p text)) = RD.StErr.
+Proof. exact LC.whole_returns_text. Qed.
+Print Assumptions read_returns_text.
+
+Theorem read_returns_pieces_text : forall cfix fuel pieces, (24 * length (concat pieces) + 26 <= fuel)%nat ->
+  fst (RD.observe (RD.parse_pieces true cfix fuel pieces)) = RD.StDone \/
+  fst (RD.observe (RD.parse_pieces true cfix fuel pieces)) = RD.StMore \/
+  fst (RD.observe (RD.parse_pieces true cfix fuel pieces)) = RD.StErr.
+Proof. exact LC.pieces_returns_text. Qed.
+Print Assumptions read_returns_pieces_text.
 
 (* non-vacuity: the fuel condition matters and is met by small numbers.  `(a)`: three tokens, read_fuel 11;
    the model runs out of fuel with 3 and is done with 4.  `{a:1}`: the brace counts twice, read_fuel 17. *)
